@@ -141,3 +141,21 @@ Example C13_noninterference_guard_satisfiable :
   forallb (fun o => negb (foreign_delete 1 o))
     [Ingest 1 w_a [2]; Ingest 0 w_a [1]; AddAlias 0 w_a w_aXb1; Delete 1 w_a; Restart; QSearch 1 w_a] = true.
 Proof. exact noninterference_guard_sat. Qed.
+
+(* Aliases.  Removing alias [al] from index [idx] of org X removes exactly that pair from the
+   relation the expansion uses: every other (org, alias, index) pair — the same alias on
+   another index, other aliases of the same index, the same alias name in another org — still
+   resolves, and the removed pair no longer does (no restart needed). *)
+Theorem C13_unalias_exact : forall s X idx al Y a t,
+  is_empty idx = false ->
+  (In t (alias_targets (rem_alias s X idx al) Y a) <->
+   In t (alias_targets s Y a) /\ ~ (Y = X /\ a = al /\ t = idx)).
+Proof. exact unalias_exact. Qed.
+Print Assumptions C13_unalias_exact.
+
+(* Completeness side of the selection: every stored event of X in an index of the expansion is returned. *)
+Theorem C13_query_complete : forall ops X expr e,
+  In e (evs (run ops)) -> e_org e = X -> In (e_tab e) (expand (run ops) X false expr) ->
+  In (e_id e) (map e_id (q_events (run ops) X expr)).
+Proof. exact query_complete. Qed.
+Print Assumptions C13_query_complete.
